@@ -529,6 +529,8 @@ def standard_run(chk, pid, families, kinds, key_of=None, nontrivial=None, extra=
 
 
 # ------------------------------------------------------------------ spec -> code: replay TLC behaviours of Engine.tla
+import threading as _threading
+_REAL_ENGINE_LOCK = _threading.Lock()
 
 def _norm(x):
     """Normalise TLA+ values (tlaval) and JSON projections to one comparable shape; empty seq/function/record are equal."""
@@ -600,7 +602,8 @@ def replay_model(chk, name, prog, ext_menu=(), max_ext=1, max_cancel=0, max_path
             and st["pull"]["st"] != "got" and not (st["pull"]["st"] == "waiting" and len(st["mailbox"]) > 0)
             and not any(dict(w)["at"] <= st["now"] for w in st["wake"]))
 
-    for path in paths:
+    def one_path(path):
+        nonlocal compared, mism, first_mismatch
         s = en.EngineSystem(prog, observe_c11=False)
         try:
             s.start("s0")
@@ -663,6 +666,12 @@ def replay_model(chk, name, prog, ext_menu=(), max_ext=1, max_cancel=0, max_path
                     break
         finally:
             s.close()
+
+    for path in paths:
+        # one real engine at a time: the virtual clock patches the time module and the registry of recording runners is
+        # global, while the replays of several plans run in threads side by side with the TLC jobs
+        with _REAL_ENGINE_LOCK:
+            one_path(path)
     if first_mismatch:
         chk.note("spec->code replay drift (%s): %s" % (name, str(first_mismatch)[:600]))
     chk.add(model_paths_replayed=len(paths), model_states_compared=compared, model_replay_mismatches=mism)
